@@ -11,43 +11,43 @@ func init() {
 		NotDecided: "correctness of the hash implementations; that Verify's re-scan after an algorithm switch reads exactly the bytes written; pre-existing corrupt files in a directory.",
 	})
 	registerProperty(&Property{ID: "C02", DesignRef: "DESIGN.md §4 C02, §3.3",
-		Rules:      []string{"TS-BOUNDREAD", "TS-ACK", "TS-SERVE", "TS-CONTENT-FIRST#push", "TS-STORED-THEN-INDEXED#push", "TS-REFUSE#push", "TS-REFUSE#upload", "SH-WORKLIST#complete", "SH-CONVERT-MARK#loader", "SH-WORKLIST#skip-set", "SH-SWEEP-GUARD#safety", "SH-ROOTS#safety", "TS-TAGKEEP"},
+		Rules:      []string{"TS-BOUNDREAD", "TS-ACK", "TS-SERVE", "TS-CONTENT-FIRST#push", "TS-STORED-THEN-INDEXED#push", "TS-REFUSE#push", "TS-REFUSE#upload", "SH-WORKLIST#complete", "SH-CONVERT-MARK#loader", "SH-WORKLIST#skip-set", "SH-SWEEP-GUARD#safety", "SH-ROOTS#safety", "TS-TAGKEEP", "TB-MEDIATYPE"},
 		Technique:  techPath,
 		Decided:    "the manifest body is read through a bound above the limit and an oversized body is refused on every path to the insert (never stored cut); no 2xx / `return nil` is reachable when a commit call failed, was not tested or was discarded (abstract error values tracked per path); content is stored before the index entry naming it; served headers and body come from the recorded descriptor; the child descriptors of nested indexes are rebuilt completely on every index load (worklist discipline of the scan), so manifests acknowledged by digest stay addressable after a restart; the collector removes nothing a retained manifest references (skip-set discipline, sweep guards and root selection shared with C05), so acknowledged content disappears only by policy.",
 		NotDecided: "byte identity after arbitrary histories; range arithmetic (net/http.ServeContent); the full retention policy matrix (C05).",
 	})
 	registerProperty(&Property{ID: "C03", DesignRef: "DESIGN.md §4 C03, §3.4",
-		Rules:      []string{"PV-BOUNDS#taglist", "TS-SORT", "TS-REFTAG", "TS-GETDESC", "TS-TAGKEEP", "TS-SAVE#api"},
+		Rules:      []string{"PV-BOUNDS#taglist", "TS-SORT", "TS-REFTAG", "TS-GETDESC", "TS-TAGKEEP", "TS-SAVE#api", "TB-GRAMMAR#tag", "TS-RMDESC"},
 		Technique:  "difference-bound (ABCD-style) range proof on go/ssa for request-derived integers; ordering checks on the CFG",
 		Decided:    "every slice bound / index derived from the request's n, page … is proven in range by the dominating conditions (n=0, negative and oversized values cannot panic); the tag list is filled, sorted, truncated, marshalled in that order; a tag is recorded only from a grammar-checked reference; tag lookups return the annotated entry and digest lookups a bare descriptor (what makes ‘delete a tag’ and ‘delete a digest’ differ).",
 		NotDecided: "the map semantics of AddDesc/RmDesc (value-level, see C18); strictness of the `last` comparison; exactly-once paging.",
 	})
 	registerProperty(&Property{ID: "C04", DesignRef: "DESIGN.md §4 C04, §3.3, §3.6",
-		Rules:      []string{"TS-EXISTS", "TS-MT-CONSISTENT", "TS-REFTAG", "TS-HASHBYTES#expected-digest", "TS-REFUSE#push", "TB-MEDIATYPE", "TS-DETECT", "PV-PATH#digest"},
+		Rules:      []string{"TS-EXISTS", "TS-MT-CONSISTENT", "TS-REFTAG", "TS-HASHBYTES#expected-digest", "TS-REFUSE#push", "TB-MEDIATYPE", "TS-DETECT", "PV-PATH#digest", "TB-GRAMMAR#tag"},
 		Technique:  techPath + "; table agreement on constants",
 		Decided:    "every path to the index insert passes the parse ok-edge and the ok-edge of an existence verifier that covers every Descriptor field of the parsed struct in the same repository; the declared media type is compared with the body's; reference is a grammar-checked tag or the compared digest; media-type tables agree; nothing mutating is reachable after any refusal; mutators sit behind the read-only guard.",
 		NotDecided: "well-formedness beyond what the JSON decoder and the reference checks establish; equality of the observable state before/after a refusal as a value.",
 	})
 	registerProperty(&Property{ID: "C05", DesignRef: "DESIGN.md §4 C05, §3.7, §3.2",
-		Rules:      []string{"SH-WORKLIST#skip-set", "SH-MARK-EXHAUSTIVE", "SH-SWEEP-GUARD#safety", "SH-ROOTS#safety", "TS-COMMIT-FRESH", "FS-CLEANUP", "LK-TOKEN#exclusion"},
+		Rules:      []string{"SH-WORKLIST#skip-set", "SH-MARK-EXHAUSTIVE", "SH-SWEEP-GUARD#safety", "SH-ROOTS#safety", "TS-COMMIT-FRESH", "FS-CLEANUP", "LK-TOKEN#exclusion", "SH-SIBLING-REF#mediatype", "TB-MEDIATYPE"},
 		Technique:  "algorithm-shape rules on the typed AST and go/ssa (worklist discipline, field exhaustiveness, dominance of the sweep), lock/typestate analysis for the collector–handler exclusion",
 		Decided:    "mark phase: skip-set discipline (a digest in several roles is still expanded), every descriptor field of image and index manifests and the referrers edge are followed; sweep: removal dominated by the not-marked edge, a modification-time test can skip it, an unmarked blob is kept only on the ‘not an index entry’ edge (retention closed under reference); root selection: every iteration path consistent with tagged / untagged-collection-off / recent appends the entry to the mark worklist (path conditions over the policy atoms); exclusion protocol: token before wait before mutex in the collector, holds only added with the token or before publication (the pairing of RepoGet/Done in handlers is decided under C12).",
 		NotDecided: "the referrers part of the retention policy matrix; which blobs a given graph retains.",
 	})
 	registerProperty(&Property{ID: "C06", DesignRef: "DESIGN.md §4 C06, §3.7",
-		Rules:      []string{"SH-PASS-LOOP", "TS-SAVE#collector", "SH-WORKLIST#term", "SH-WORKLIST#skip-set", "SH-MARK-EXHAUSTIVE", "SH-SWEEP-GUARD", "SH-ROOTS", "SH-MODSTAMP", "FS-CLEANUP#fresh"},
+		Rules:      []string{"SH-PASS-LOOP", "TS-SAVE#collector", "SH-WORKLIST#term", "SH-WORKLIST#skip-set", "SH-MARK-EXHAUSTIVE", "SH-SWEEP-GUARD", "SH-ROOTS", "SH-MODSTAMP", "FS-CLEANUP#fresh", "PV-PATH#collector"},
 		Technique:  "loop-shape and path rules on go/ssa and the typed AST",
 		Decided:    "a failing repository does not end the store-wide pass (no path from the failure edge leaves the loop); a collector-modified index is saved on all paths; the mark and scan loops terminate on any input (progress + bounded growth); index entries without a blob are pruned; untagged entries that are old or outside any grace period are not roots when untagged collection is on (path conditions of the root selection); ‘exactly the garbage’ also means nothing retained is removed: the mark phase's skip-set discipline, field exhaustiveness and the sweep guards (shared with C05).",
 		NotDecided: "exactness of the sweep as a value; idempotence of a second pass; empty-repository removal semantics (its safety is under C10).",
 	})
 	registerProperty(&Property{ID: "C07", DesignRef: "DESIGN.md §4 C07, §3.3",
-		Rules:      []string{"TS-REFERRER-CALL", "TS-REFDEL", "SH-SIBLING-REF", "TS-PAGE", "TS-FILTER-HDR", "PV-CACHEKEY", "TS-REFDESC", "LK-RMW", "TS-HASHBYTES#referrer", "TS-CONTENT-FIRST#referrer", "TS-STORED-THEN-INDEXED#referrer"},
+		Rules:      []string{"TS-REFERRER-CALL", "TS-REFDEL", "SH-SIBLING-REF", "TS-PAGE", "TS-FILTER-HDR", "PV-CACHEKEY", "TS-REFDESC", "LK-RMW", "TS-HASHBYTES#referrer", "TS-CONTENT-FIRST#referrer", "TS-STORED-THEN-INDEXED#referrer", "SH-SWAP-REMOVE"},
 		Technique:  techPath + "; sibling agreement; lock analysis for the read-modify-write",
 		Decided:    "the referrers update is called on every push path with a subject, for both manifest kinds, before the 201, and before the index removal on delete — only when the manifest itself is removed; all builders of a referrers entry fill the same fields (config fallback for images); pages respect the limit; filtered answers announce the filter on every path; the response's read-modify-write runs under one mutex.",
 		NotDecided: "exactness of the list contents after arbitrary histories; filter semantics; union of pages.",
 	})
 	registerProperty(&Property{ID: "C08", DesignRef: "DESIGN.md §4 C08, §3.3, §3.2",
-		Rules:      []string{"TS-RANGE", "LK-CTA", "TS-CANCEL", "TS-REFUSE#upload", "PV-PATH#session", "FS-TEMP", "TS-CLEANUP", "TS-TIMER", "LK-GUARD-UPLOAD", "SH-RANGE-HDR"},
+		Rules:      []string{"TS-RANGE", "LK-CTA", "TS-CANCEL", "TS-REFUSE#upload", "PV-PATH#session", "FS-TEMP", "TS-CLEANUP", "TS-TIMER", "LK-GUARD-UPLOAD", "SH-RANGE-HDR", "TS-LOWWATER"},
 		Technique:  techPath + "; lock analysis for check-then-act",
 		Decided:    "every write into an existing session is dominated by the Content-Range check and the state-offset equality against Size(); check and write under one lock (fails today: known finding); a failed Verify cancels; every exit of both commit methods unregisters the session; a refused chunk reaches no write; session ids never reach a path; the session cleanup removes the temp file; cache entries are only dropped after their cleanup; the expiry timer of the session cache is re-armable after it was stopped (a stopped timer is never left in the nil-tested field).",
 		NotDecided: "the count bound (asynchronous pruning, value-level); that status reports exactly the received bytes; expiry timing.",
@@ -65,7 +65,7 @@ func init() {
 		NotDecided: "equality of answers across restart / across stores (value-level); child-descriptor rebuild.",
 	})
 	registerProperty(&Property{ID: "C11", DesignRef: "DESIGN.md §4 C11, §3.2",
-		Rules:      []string{"LK-ATOMIC", "LK-RMW", "LK-REGISTRY", "LK-COPY", "TB-DEEP", "LK-GUARD-STORE", "TS-PAGE#snapshot"},
+		Rules:      []string{"LK-ATOMIC", "LK-RMW", "LK-REGISTRY", "LK-COPY", "TB-DEEP", "LK-GUARD-STORE", "TS-PAGE#snapshot", "TS-EXPIRE-ATOMIC"},
 		Technique:  techLock,
 		Decided:    "index load-modify-save is one uninterrupted critical section in both stores; the handler-level read-modify-write of a referrers response is covered by one mutex; handlers only see deep copies taken under the mutex; every shared field has a common lock.",
 		NotDecided: "linearizability of histories; multi-call handlers (push = insert + referrers update) being atomic as a whole.",
@@ -79,32 +79,32 @@ func init() {
 			"function-typed cache fields through which the call graph finds callees are installed (non-nil); PrunePreFn/PrunePostFn are installed together"},
 	})
 	registerProperty(&Property{ID: "C13", DesignRef: "DESIGN.md §4 C13, §3.2",
-		Rules:       []string{"LK-GUARD", "LK-GLOBALS", "LK-COPY", "TB-DEEP"},
+		Rules:       []string{"LK-GUARD", "LK-GLOBALS", "LK-COPY", "TB-DEEP", "TS-POOL"},
 		Technique:   "static lockset (Eraser/RacerD style) over the lock engine's per-access held sets, with publication analysis",
 		Decided:     "every field of the server, store and cache structs that is written after publication is accessed under one common mutex in every calling context (constructor accesses on unpublished objects exempt); values leaving a critical section are deep copies (every reference field of the copied types re-allocated).",
 		NotDecided:  "races on objects reachable only through pointers the lockset model does not track; library internals; ordering by channel / wait-group happens-before is not credited.",
 		Assumptions: []string{"named exception: Server.store is written only by Close/Shutdown whose contract forbids concurrent use"},
 	})
 	registerProperty(&Property{ID: "C14", DesignRef: "DESIGN.md §4 C14, §3.5",
-		Rules:      []string{"FS-WHO", "FS-RO", "TS-ROGUARD", "TB-ROUTE", "TS-REFUSE#ro", "TB-DEFAULTS", "SH-SIBLING-STORE#read-only-guard"},
+		Rules:      []string{"FS-WHO", "FS-RO", "TS-ROGUARD", "TB-ROUTE", "TS-REFUSE#ro", "TB-DEFAULTS#guard", "SH-SIBLING-STORE#read-only-guard"},
 		Technique:  "filesystem-effect analysis (who-may-call, guarded reachability over the call graph) and guard dominance on go/ssa",
 		Decided:    "mutating filesystem calls exist only in the directory family and only behind a read-only guard on every chain of callers; the memory family reaches none (store API resolved in-family); repository-level mutators in handlers sit behind the read-only refusal; each mutating route is gated by its API switch.",
 		NotDecided: "‘while still serving its content’ for legacy layouts whose conversion needs a write (value-level).",
 	})
 	registerProperty(&Property{ID: "C15", DesignRef: "DESIGN.md §4 C15, §3.6, §3.4",
-		Rules:      []string{"TB-ERRCODE", "TB-ERRPAIR", "TB-ERRWRAP", "SH-SIBLING-STORE#sentinels", "PV-BOUNDS", "PV-ROUTE", "PV-REPO", "TB-NILCONF"},
+		Rules:      []string{"TB-ERRCODE", "TB-ERRPAIR", "TB-ERRWRAP", "SH-SIBLING-STORE#sentinels", "PV-BOUNDS", "PV-ROUTE", "PV-REPO", "TB-NILCONF", "TB-GRAMMAR", "TS-POOL"},
 		Technique:  "table agreement on typed constants; condition→code classification on go/ssa; difference-bound range proof",
 		Decided:    "the error constructors equal the OCI code table; every error document follows a constant 4xx and the same condition maps to the same (registered) code at all sibling sites; request-derived integers are proven in range; only grammar-checked repository names are routed; dereferenced settings cannot be nil.",
 		NotDecided: "panic freedom in general (index arithmetic not derived from request integers); 5xx-vs-4xx classification of store errors.",
 	})
 	registerProperty(&Property{ID: "C16", DesignRef: "DESIGN.md §4 C16, §3.4",
-		Rules:      []string{"PV-REPO", "PV-ROUTE", "PV-PATH", "TB-RESERVED", "PV-CACHEKEY#isolation", "SH-SIBLING-STORE#validates-digest"},
+		Rules:      []string{"PV-REPO", "PV-ROUTE", "PV-PATH", "TB-RESERVED", "PV-CACHEKEY#isolation", "SH-SIBLING-STORE#validates-digest", "TB-GRAMMAR#name", "TB-DEFAULTS#mode"},
 		Technique:  "provenance (backward value tracing through parameters, closures and call sites) and path-composition analysis on go/ssa",
 		Decided:    "every repository name reaching the store is grammar-checked (routed or checked at the site); every path handed to the OS is composed of root ⊕ checked name ⊕ constants ⊕ validated digest parts ⊕ the store's own temp / directory-entry names; session ids never reach a path; names the store creates inside a repository are reserved or outside the grammar.",
 		NotDecided: "symlinks inside the root; case-insensitive filesystems; per-repository isolation of in-memory maps as a value property.",
 	})
 	registerProperty(&Property{ID: "C17", DesignRef: "DESIGN.md §4 C17, §3.7",
-		Rules:      []string{"LK-SELF#ingest", "SH-IDEMPOTENT", "SH-WORKLIST#term", "SH-WORKLIST#complete", "SH-CONVERT-MARK", "TS-CONTENT-FIRST#ingest", "TS-STORED-THEN-INDEXED#ingest", "TS-SAVE#ingest", "SH-GROUP-KEY", "TS-REFDESC"},
+		Rules:      []string{"LK-SELF#ingest", "SH-IDEMPOTENT", "SH-WORKLIST#term", "SH-WORKLIST#complete", "SH-CONVERT-MARK", "TS-CONTENT-FIRST#ingest", "TS-STORED-THEN-INDEXED#ingest", "TS-SAVE#ingest", "SH-GROUP-KEY", "TS-REFDESC", "SH-SWAP-REMOVE"},
 		Technique:  "lock analysis on the conversion's call chain; shape and path rules on go/ssa and the typed AST",
 		Decided:    "the conversion cannot block on a mutex it already holds; re-creating an already stored response is tolerated (repeatability after interruption); the conversion and child-scan loops terminate; the converted marker is set on every normal exit and the modified result leads to a save; a regenerated response is stored before it is indexed.",
 		NotDecided: "losslessness; grouping by actual subject; equality of the results of repeated conversions (value-level).",
@@ -116,7 +116,7 @@ func init() {
 		NotDecided: "per-second accounting; signal handling outcome; every-combination behaviour as values.",
 	})
 	registerProperty(&Property{ID: "C20", DesignRef: "DESIGN.md §4 C20, §3.3",
-		Rules:      []string{"TS-CLEANUP", "TS-LRU-TOUCH", "TS-PRUNE-TRIGGER", "LK-GUARD-CACHE", "LK-PAIR-CACHE"},
+		Rules:      []string{"TS-CLEANUP", "TS-LRU-TOUCH", "TS-PRUNE-TRIGGER", "TS-LOWWATER", "TS-EXPIRE-ATOMIC", "LK-GUARD-CACHE", "LK-PAIR-CACHE"},
 		Technique:  techPath + "; lockset on the cache's fields",
 		Decided:    "at each of the four removal sites an entry is removed only after its cleanup ran with that key and returned nil (or no cleanup is configured / the entry is absent); entries, per-entry time and timer are only touched under the cache mutex; the cache mutex is released on every exit; every lookup of a found entry refreshes its last-use time and every insertion initialises it (the structural half of ‘least recently used’).",
 		NotDecided: "LRU order, expiry timing, prune-back-to-limit (value-level); what happens to the old value when Set overwrites a key.",
